@@ -34,9 +34,12 @@ def load_findings():
         line = line.strip()
         if not line or line.startswith('#') or line.startswith('fixed:'):
             continue
-        m = re.match(r'finding:\s+property=(\S+)\s+id=(\S+)\s+(?:exclude=(\S+)\s+)?match=/(.*)/\s+::\s+(.*)$', line)
+        m = re.match(r'finding:\s+property=(\S+)\s+id=(\S+)\s+((?:\w+=\S+\s+)*)match=/(.*)/\s+::\s+(.*)$', line)
         if m:
-            out.append(Finding(m.group(1), m.group(2), m.group(4), m.group(5), m.group(3)))
+            attrs = dict(kv.split('=', 1) for kv in m.group(3).split())
+            f = Finding(m.group(1), m.group(2), m.group(4), m.group(5), attrs.get('exclude'))
+            f.attrs = attrs
+            out.append(f)
         else:
             sys.stderr.write('known-findings.txt: unparsable line ignored: %s\n' % line)
     return out
